@@ -147,6 +147,16 @@ def mk_incoming(mtype):
                             assert out == []                                                  # ... unless received on a multicast address
                 else:
                     assert out == [], "messages whose code and type do not fit are ignored"
+                if c.is_request() and t == 0 and code in (1, 2) and not mc:
+                    # a later non-confirmable request from the same endpoint that reuses the token: never acknowledged, answered
+                    # non-confirmably under a fresh message ID (the earlier exchange's piggy-back opportunity is used up)
+                    n1 = len(S.tr.sent)
+                    m2 = Message(code=code, _mtype=NON, _mid=78, _token=token, uri_path=["h"])
+                    S.deliver(m2.encode(), stack.R0)
+                    loop.drain()
+                    out2 = [Message.decode(d) for (d, a, tm) in S.tr.sent[n1:]]
+                    assert all(o.mtype != ACK for o in out2), "a non-confirmable request must never be acknowledged"
+                    assert [o.mtype for o in out2 if int(o.code) != 0] == [NON] and all(o.mid not in (77, 78) for o in out2)
                 assert loop.exceptions == []
             assert not reach, "reach"
         return h
